@@ -540,3 +540,23 @@ package boltz
 //@ view curDesc[*entitySetSymbolRuntime] = false
 //@ typeinv entitySetSymbolRuntime: (self.cursor == nil ==> self.value == nil) && (self.cursor != nil ==> 0 <= bcLen[self.cursor] && bcLen[self.cursor] < MaxInt64 && 0 <= bcPos[self.cursor] && bcPos[self.cursor] <= bcLen[self.cursor] && sortedKeys(bcKeys[self.cursor], bcLen[self.cursor]) && (self.value != nil) == (bcPos[self.cursor] < bcLen[self.cursor]) && (self.value != nil ==> str(self.value) == bcKeys[self.cursor][bcPos[self.cursor]] && len(self.value) > 0) && forall(i, 0 <= i && i < bcLen[self.cursor] ==> sel(bcKeys[self.cursor], i) == prepend(TypeString, untag(sel(bcKeys[self.cursor], i)))))
 //@ implcheck C14 ast.SeekableSetCursor *entitySetSymbolRuntime
+// assumed: the keys of an entity's set bucket are typed strings (they are written by SetStringList / SetListEntry only)
+//@ func (*entitySetSymbolImpl).openBoltCursor
+//@   pure
+//@   censures result != nil ==> fresh(result) && 0 <= bcLen[result] && bcLen[result] < MaxInt64 && sortedKeys(bcKeys[result], bcLen[result]) && forall(i, 0 <= i && i < bcLen[result] ==> sel(bcKeys[result], i) == prepend(TypeString, untag(sel(bcKeys[result], i))))
+// OpenCursor: repositions the (reused) runtime symbol at the start of the row's set; no bucket = empty set
+//@ func (*entitySetSymbolRuntime).OpenCursor
+//@   props C14
+//@   modifies symbol.cursor, symbol.value
+//@   ensures[at-start] result != nil && istype(result, *entitySetSymbolRuntime) && as(result, *entitySetSymbolRuntime) == symbol && curPos[symbol] == 0
+
+// anyOf over several values: the tree set is built in the requested direction
+//@ func (SetReadIndex).Read
+//@   invokes f
+//@ func (*BaseStore).IteratorMatchingAnyOf$2$1
+//@   modifies treeLen[(*fv(set)).tree], treeKinds[(*fv(set)).tree]
+//@ func (*BaseStore).IteratorMatchingAnyOf$2
+//@   props C14
+//@   assume *fv(readIndex) != nil
+//@   ensures[directed] result != nil && (curLen[result] > 0 ==> curDesc[result] == !forward)
+
